@@ -399,3 +399,19 @@ B('C19', 'quoted spelling shadowed', (BS, "@then('expression {expression} holds'
 B('C19', 'reproduce ignores the keyword', (BS, "                    context.execute_steps('{} {}'.format(keyword, step.name))", "                    context.execute_steps('{} {}'.format('Given', step.name))"))
 B('C19', 'not exited checks entered', (BS, "    test = not testing.state_is_exited(context.monitored_trace, name)", "    test = not testing.state_is_entered(context.monitored_trace, name)"))
 T('C19', 'inline assertion', (BS, "    test = testing.state_is_entered(context.monitored_trace, name)\n    assert test, 'State {} is not entered'.format(name)", "    assert testing.state_is_entered(context.monitored_trace, name), 'State {} is not entered'.format(name)"))
+
+# ---------------------------------------------------------------- C20
+B('C20', 'F6 reverted', (RU, "            steps.append(step)\n\n            if not self._execute_all:\n                break\n\n            step = self.interpreter.execute_once()", "            steps.append(step)\n            step = self.interpreter.execute_once()\n\n            if not self._execute_all:\n                break"))
+B('C20', 'stop() without _unpaused.set()', (RU, "        self._stop.set()\n        self._unpaused.set()\n        self.wait()", "        self._stop.set()\n        self.wait()"))
+B('C20', 'after_run inside the loop', (RU, "            time.sleep(max(0, self.interval - elapsed))\n            self._unpaused.wait()\n", "            time.sleep(max(0, self.interval - elapsed))\n            self._unpaused.wait()\n            self.after_run()\n"), (RU, "        self._stop.set()\n\n        self.after_run()\n", "        self._stop.set()\n"))
+B('C20', 'loop ignoring _stop', (RU, "while not self.interpreter.final and not self._stop.is_set():", "while not self.interpreter.final:"))
+B('C20', 'after_execute not given the result', (RU, "            self.after_execute(r)", "            self.after_execute([])"))
+B('C20', 'no pause point at the end of a cycle', (RU, "            time.sleep(max(0, self.interval - elapsed))\n            self._unpaused.wait()\n", "            time.sleep(max(0, self.interval - elapsed))\n"))
+B('C20', 'stop wakes before setting the flag', (RU, "        self._stop.set()\n        self._unpaused.set()\n        self.wait()", "        self._unpaused.set()\n        self._stop.set()\n        self.wait()"))
+B('C20', 'before_execute after execute', (RU, "            self.before_execute()\n            r = self.execute()", "            r = self.execute()\n            self.before_execute()"))
+B('C20', 'first step never appended', (RU, "        while step:\n            steps.append(step)\n", "        while step:\n"))
+B('C20', 'pause sets instead of clearing', (RU, "        Pause the execution.\n        \"\"\"\n        self._unpaused.clear()", "        Pause the execution.\n        \"\"\"\n        self._unpaused.set()"))
+B('C20', 'stop does not join', (RU, "        self._stop.set()\n        self._unpaused.set()\n        self.wait()", "        self._stop.set()\n        self._unpaused.set()"))
+B('C20', 'restart of a stopped runner allowed', (RU, "        if self._stop.is_set():\n            raise RuntimeError('Cannot restart a stopped runner.')\n        elif self._thread.is_alive():", "        if self._thread.is_alive():"))
+B('C20', 'execute_all by default', (RU, "interval: float = 0.1, execute_all=False) -> None:", "interval: float = 0.1, execute_all=True) -> None:"))
+T('C20', 'while with is not None', (RU, "        while step:\n            steps.append(step)", "        while step is not None:\n            steps.append(step)"))
